@@ -22,7 +22,8 @@ TECHNIQUE = ('generated workbooks written as xlsx with consistent stored '
              'results, then one stored result perturbed per case (each '
              'formula cell in turn x perturbation kind x tolerance x choice '
              'of checked outputs); reference = which cells depend on the '
-             'perturbed one')
+             'perturbed one'
+             '; unevaluable cells (unknown function, missing sheet) as bystander and as the only output')
 LEVEL_TEXT = ('Fault enumeration: for every sampled workbook every formula '
               'cell is perturbed in turn (number far beyond / far below the '
               'tolerance, 2x / 0.5x the tolerance, other text, negated logical, '
